@@ -140,6 +140,10 @@ func runC13(c *eng.Ctx) {
 		c.Guard("MONO-setmax", "raise-only", fn, eng.Entry(fn), sts, eng.PassEdges(fn, raise), "the counter is replaced only when the reported key is not below it")
 	}
 
+	c.CheckLockPairs("PAIR-sequence", "weed/sequence", "MemorySequencer.sequenceLock", nil)
+	c.CheckLockPairs("PAIR-sequence", "weed/sequence", "EtcdSequencer.sequenceLock", nil)
+	c.Expect("PAIR-sequence", 4)
+
 	// ---------------------------------------------------------------- (3) GUARD-refill
 	if fn := c.NeedFunc("weed/sequence", "(*EtcdSequencer).NextFileId"); fn != nil && len(fn.Params) > 1 {
 		count := fn.Params[1]
